@@ -214,7 +214,7 @@ theorem targets_step (format : Str → Option Str) (c : Ctx) (t : Target) (ts : 
        (executeTargets format c ts (executeTarget format c t d).2.2).2) := rfl
 
 /-! non-vacuity -/
-def gBad : Gen := ⟨"g".toList, [1, 2], none, "go".toList, "a.go".toList, [], [], [], false, false, [2]⟩
+def gBad : Gen := ⟨"g".toList, [1, 2], none, "go".toList, "a.go".toList, [], [], [], false, false, [2], false⟩
 example : hookFails gBad [1, 2] = true := by decide
 example : (runGens ⟨[1, 2], [], ["go".toList], false, false⟩ ⟨"p".toList, "d".toList, [1, 2], [], [gBad]⟩ [1, 2] [gBad] []).2
     = .inl .errHook := hook_error_is_run_error _ _ _ _ _ _ (by decide) (by decide)
